@@ -37,6 +37,7 @@
 #include <signal.h>
 #include <sys/wait.h>
 #include <sys/uio.h>
+#include <execinfo.h>
 #define protected public
 #define private public
 #include <photon/thread/thread.h>
@@ -291,8 +292,20 @@ bool parse_case(const std::string& line) {
     return !g_calls.empty() && g_calls.size() <= 64;
 }
 
+// diagnosis of a child that does not finish in real time: dump its stack to stderr shortly before the
+// parent's limit expires (the parent then re-runs the case, see main)
+void on_alarm(int) {
+    void* bt[48]; int n = backtrace(bt, 48);
+    const char* m = "[C11 harness] child still running at the real-time limit; stack:\n"; (void)!write(2, m, strlen(m));
+    backtrace_symbols_fd(bt, n, 2);
+    char buf[160]; snprintf(buf, sizeof buf, "[C11 harness] vclock=%" PRIu64 " idle_rounds=%" PRIu64 " trace_len=%zu\n", g_vclock, g_idle_rounds, g_trace.size());
+    (void)!write(2, buf, strlen(buf));
+}
+
 void child_main(const std::string& line, int outfd) {
     g_outfd = outfd;
+    signal(SIGALRM, on_alarm);
+    { const char* t = getenv("C11_TIMEOUT_MS"); int ms = t ? atoi(t) : 20000; alarm(ms > 3000 ? (ms - 2000) / 1000 : 1); }
     if (!parse_case(line)) { const char* m = "BADCASE\n"; (void)!write(outfd, m, strlen(m)); _exit(0); }
     if (!&photon_verif_clock || !&photon_verif_idle) { const char* m = "NOHOOKS\n"; (void)!write(outfd, m, strlen(m)); _exit(0); }
     log_output_level = ALOG_FATAL + 1;
